@@ -564,7 +564,7 @@ func ruleMergeCollide(c *Ctx) []Obligation {
 			cal := ci.Common().StaticCallee()
 			if cal != nil && rec[cal] && len(ci.Common().Args) > 0 && ci.Common().Args[0] == ssa.Value(merge.Params[0]) {
 				// an error recorded on the receiver (target)
-				if cal.Name() == "addError" || cal.Name() == "errorf" {
+				if baseName(cal) == "addError" || baseName(cal) == "errorf" {
 					barrier[in.Block()] = true
 				}
 			}
